@@ -367,6 +367,13 @@ Section Sat.
       | _ => exists u v, eval_path sol e scope = Some u /\ own sol a id_tau = Some v /\ veq_true u v
       end.
 
+  (* the environment an assignment `path.x = ..` writes to *)
+  Definition assign_target (e : ident) (path : list ident) : option ident :=
+    match path with
+    | [] => Some e
+    | _ => match eval_path sol e path with Some (VRef t) => Some t | _ => None end
+    end.
+
   Fixpoint sat_stmt (s : stmt) (e : ident) {struct s} : Prop :=
     match s with
     | SExpr c => holds sol e c
@@ -384,6 +391,10 @@ Section Sat.
         nth_error (d_branches dr) k = Some (Some be, true) /\ extends sol be e = true /\
         branch (fun body be' => All (fun s' => sat_stmt s' be') body) cs k be
     | SFormula isfact x scope pred args => formula_ok e isfact x scope pred args
+    | SAssign path x fresh c =>
+      (* the name is bound in the target environment; the assignment decides its value only when it introduced the name *)
+      exists t v, assign_target e path = Some t /\ own sol t x = Some v /\
+                  (fresh = true -> exists u, eval sol e c = Some u /\ veq_true u v)
     end.
 
   Definition sat_list (l : list stmt) (e : ident) : Prop := All (fun s => sat_stmt s e) l.
